@@ -902,9 +902,21 @@ def rule_u12(F):
     return r
 
 
+def rule_u13(F):
+    """C09.P12 under C06's id: a scanner that decides 'this literal is terminated' by looking at how the consumed text ENDS accepts a
+    lone opening quote as a complete literal - and the parser's `&s[1..s.len() - 1]` on that token panics."""
+    from . import c09
+    r = c09.rule_p12(F)
+    r.rule = "C06.U13"
+    r.desc = "no lexer scanner decides by looking backwards over the consumed text (a lone quote is not a terminated literal)"
+    for v in r.violations:
+        v.rule = "C06.U13"
+    return r
+
+
 def rules(ctx):
     F = ctx["F"]
-    return [rule_u1(F), rule_u2(F), rule_u3(F), rule_u3b(F), rule_u4(F), rule_u5(F), rule_u6(F), rule_u7(F), rule_u8(F), rule_u9(F), rule_u10(F), rule_u11(F), rule_u12(F)]
+    return [rule_u1(F), rule_u2(F), rule_u3(F), rule_u3b(F), rule_u4(F), rule_u5(F), rule_u6(F), rule_u7(F), rule_u8(F), rule_u9(F), rule_u10(F), rule_u11(F), rule_u12(F), rule_u13(F)]
 
 
 def canary(C):
